@@ -24,15 +24,69 @@ import (
 )
 
 type (
-	Once   = sync.Once
 	Pool   = core.Pool
 	Map    = sync.Map
 	Locker = sync.Locker
 	Cond   = sync.Cond
 )
 
-func NewCond(l Locker) *Cond   { return sync.NewCond(l) }
-func OnceFunc(f func()) func() { return sync.OnceFunc(f) }
+func NewCond(l Locker) *Cond { return sync.NewCond(l) }
+
+// Once is a model of sync.Once over the channel-based Mutex: the function may contain inserted
+// yields, and a goroutine parked at one inside the real Once would hold its real mutex, on which
+// a second caller does not block "durably" - the bubble would never become quiescent.  As with
+// the real one, a Do whose function panics counts as done.
+type Once struct {
+	m    Mutex
+	done bool
+}
+
+func (o *Once) Do(f func()) {
+	o.m.Lock()
+	defer o.m.Unlock()
+	if !o.done {
+		defer func() { o.done = true }()
+		f()
+	}
+}
+
+func OnceFunc(f func()) func() {
+	g := OnceValue(func() struct{} { f(); return struct{}{} })
+	return func() { g() }
+}
+
+// OnceValue and OnceValues as in sync (go 1.21), over the modelled Once.
+func OnceValue[T any](f func() T) func() T {
+	var o Once
+	var v T
+	var p any
+	ok := false
+	return func() T {
+		o.Do(func() {
+			defer func() {
+				if !ok {
+					p = recover()
+					panic(p)
+				}
+			}()
+			v = f()
+			ok = true
+		})
+		if !ok {
+			panic(p)
+		}
+		return v
+	}
+}
+
+func OnceValues[T1, T2 any](f func() (T1, T2)) func() (T1, T2) {
+	type pair struct {
+		a T1
+		b T2
+	}
+	g := OnceValue(func() pair { a, b := f(); return pair{a, b} })
+	return func() (T1, T2) { p := g(); return p.a, p.b }
+}
 
 type Mutex struct {
 	init sync.Mutex // protects the lazy creation of ch only; never held across a yield
